@@ -1,5 +1,6 @@
 import Driver.Util
 import TrimeshVerif.Model.Path
+import TrimeshVerif.Model.Enclosure
 open Lean Drv TV.Path
 namespace Drv.C14
 
@@ -20,7 +21,13 @@ def handle (j : Json) : Except String Json := do
       | Json.arr #[pts, rev] => pure ((← jList jP2 pts), (← jBool rev))
       | _ => throw "piece expected"))) []
     let arcs ← fldD j "arcs" (jList (jList jP2)) []
+    -- containment matrix of the closed polygons (shells and holes)
+    let cont ← fldD j "contains" (jList (jList jBool)) []
     pure <| obj [
+      ("enclosure", obj [("laminar", ofBool (TV.EnclosureModel.laminar cont)),
+        ("degrees", ofList ofNat (TV.EnclosureModel.degs cont)),
+        ("roots", ofList ofNat (TV.EnclosureModel.roots cont)),
+        ("edges", ofList (fun (e : Nat × Nat) => Json.arr #[ofNat e.1, ofNat e.2]) (TV.EnclosureModel.shellEdges cont))]),
       ("arc_centers", ofList (fun (a : List P2) => match a with
         | [p0, p1, p2] => (match arcCenter p0 p1 p2 with
             | some o => Json.arr #[ofP2 o, ofRat (sqLen o p0)]
